@@ -1,11 +1,11 @@
 package main
 
 import (
-	"sort"
 	"fmt"
 	"go/token"
 	"go/types"
 	"os"
+	"sort"
 	"strings"
 
 	"golang.org/x/tools/go/ssa"
@@ -128,6 +128,8 @@ func runC18(c *Ctx) {
 				pr, isParam := a.(*ssa.Parameter)
 				c.check(isParam && pr == rp.Params[2], "R2", "recvPacket GetPage tag", pos(gp), "GetPage(orderID)", "recvPacket asks for a page under a different id than it was given")
 			}
+		} else {
+			c.missing("R2", "recvPacket")
 		}
 	}
 
@@ -320,6 +322,8 @@ func runC18(c *Ctx) {
 		}
 		c.check(same, "R9", "getDataSlice length is allocator independent", posS, "page[:n] and make([]byte, n) use the same n",
 			"the buffer for a READ has another length with the allocator than without it (the page path clamps or computes its own length): the same READ is answered with fewer bytes, and this package's client takes a short DATA for end of file")
+	} else {
+		c.missing("R9", "(*sshFxpReadPacket).getDataSlice")
 	}
 }
 
@@ -365,6 +369,8 @@ func runC16(c *Ctx) {
 		})
 		c.check(bounded, "R6", "request server batch fits one frame", p.Pos(fl.Pos()), "batch size is a small constant or the reply is split by size",
 			"filelist puts a whole ListAt batch ("+desc+" entries, names of any length) into one NAME packet without looking at its encoded size: above 256 KiB the client refuses the frame, the listing fails with a lost connection and the session is dead")
+	} else {
+		c.missing("R6", "filelist")
 	}
 
 	// ---------- R1 request server cursor ----------
@@ -1064,7 +1070,6 @@ func checkMemFSNameIndex(c *Ctx, rule string) {
 	}
 	c.check(n >= 3, rule, "in-memory backend: entries filed", "?", fmt.Sprintf("%d sites", n), fmt.Sprintf("only %d sites found", n))
 }
-
 
 // checkListingCursor (C16.R1, shared with C10 as R9): the request server reads the cursor, calls ListAt at it, advances
 // it by ListAt's own count exactly once, emits finfo[:n] and answers STATUS exactly when there is nothing to deliver.
